@@ -374,10 +374,15 @@ bool splinetable<Alloc>::read_fits_core(fitsfile* fits, const std::string& fileP
 		hduname << "KNOTS" << i;
 		fits_movnam_hdu(fits, IMAGE_HDU, const_cast<char*>(hduname.str().c_str()), 0, &error);
 		long nknots_temp;
+		int knots_dim = 0;
+		fits_get_img_dim(fits, &knots_dim, &error);
 		fits_get_img_size(fits, 1, &nknots_temp, &error);
 		
 		if (error != 0)
 			throw std::runtime_error("Error reading size of knot vector "+std::to_string(i));
+		//The knots are read below as a one-dimensional image
+		if(knots_dim!=1)
+			throw std::runtime_error("Invalid number of knots in dimension "+std::to_string(i)+": the knot image has "+std::to_string(knots_dim)+" axes instead of 1");
 		if(nknots_temp<=0)
 			throw std::runtime_error("Invalid number of knots ("+std::to_string(nknots_temp)+") in dimension "+std::to_string(i));
 		//Evaluation needs at least order+1 basis functions per dimension,
@@ -420,8 +425,10 @@ bool splinetable<Alloc>::read_fits_core(fitsfile* fits, const std::string& fileP
 		long fpix = 1;
 		int ext_error = 0;
 		fits_movnam_hdu(fits, IMAGE_HDU, const_cast<char*>("EXTENTS"), 0, &ext_error);
+		int extents_dim = 0;
+		fits_get_img_dim(fits, &extents_dim, &ext_error);
 		fits_get_img_size(fits, 1, &n_extents, &ext_error);
-		if (n_extents != 2*ndim)
+		if (n_extents != 2*ndim || extents_dim != 1)
 			ext_error = 1;
 		
 		if (ext_error != 0) { // No extents. Make up some reasonable ones.
